@@ -285,6 +285,18 @@ def real_scene(pid, n, m, mode, policy, task, thr, e_labels, g_labels):
 
     parts, obs = check_matching(pid, ests_in, gts_in, ests, gts, res, exc, score, policy, maximize, thresholds,
                                 TASKS[task].is_fp_validation())
+    if exc is None:
+        # the same call again on the same objects (which now have a past) gives the same pairing
+        try:
+            res2 = OR.get_object_results(TASKS[task], ests_in, gts_in, target_labels=TARGETS,
+                                         matching_label_policy=POLICIES[policy], matching_mode=MODES[mode],
+                                         matchable_thresholds=thresholds)
+            same = len(res2) == len(res) and all(a.estimated_object is b.estimated_object
+                                                 and a.ground_truth_object is b.ground_truth_object
+                                                 for a, b in zip(res, res2))
+        except Exception:  # noqa
+            same = False
+        parts["c01_repeated_call_same_result"] = same
     return Out(parts=select(pid, parts), obs=obs)
 
 
